@@ -11,7 +11,10 @@ use crate::gen::clocks::{host_rule, HostRule};
 use crate::trace::Trace;
 
 pub mod c01;
+pub mod c03;
 pub mod c04;
+pub mod c06;
+pub mod sem;
 pub mod c18;
 
 #[derive(Debug, Clone, PartialEq, Serialize, Deserialize)]
@@ -92,10 +95,12 @@ pub trait Check {
 pub fn get(id: &str) -> Option<Box<dyn Check>> {
     match id {
         "C01" => Some(Box::new(c01::C01)),
+        "C03" => Some(Box::new(c03::C03)),
         "C04" => Some(Box::new(c04::C04)),
+        "C06" => Some(Box::new(c06::C06)),
         "C18" => Some(Box::new(c18::C18)),
         _ => None,
     }
 }
 
-pub const ALL: &[&str] = &["C01", "C04", "C18"];
+pub const ALL: &[&str] = &["C01", "C03", "C04", "C06", "C18"];
